@@ -24,6 +24,7 @@ pub fn bind_groups_module(
     let bind_groups: Vec<_> = bind_group_data
         .iter()
         .map(|(group_no, group)| {
+            verif_point!("bind_groups_module:group");
             let group_name = indexed_name_to_ident("BindGroup", *group_no);
 
             let layout = bind_group_layout(*group_no, group);
@@ -393,6 +394,7 @@ pub fn get_bind_group_data(
     let mut groups = BTreeMap::new();
 
     for global_handle in module.global_variables.iter() {
+        verif_point!("get_bind_group_data:global");
         let global = &module.global_variables[global_handle.0];
         if let Some(binding) = &global.binding {
             let group = groups.entry(binding.group).or_insert(GroupData {
